@@ -43,7 +43,7 @@ STUB = ["choice of the running worker thread (baton scheduler, line events in mo
 ASSUMPTIONS = ["the eval'd equation lambdas and numpy/pandas run atomically between two pre-emption points",
                "double evaluation of an equation is allowed; a second VALUE for one (element, time) is not"]
 FAULT_KINDS = ["preemption"]
-PROBES = ["edit_landed_inside_a_run", "stochastic_scenario_run_repeatedly", "read_via_memoize", "read_via_call", "read_via_plot", "decimal_dt_race", "edit_after_dependant_read", "initial_value_edit", "preempted_between_check_and_store", "fresh_called_twice_for_one_time",
+PROBES = ["scenario_constant_then_scenario_reset", "long_stochastic_run", "edit_landed_inside_a_run", "stochastic_scenario_run_repeatedly", "read_via_memoize", "read_via_call", "read_via_plot", "decimal_dt_race", "edit_after_dependant_read", "initial_value_edit", "preempted_between_check_and_store", "fresh_called_twice_for_one_time",
           "run_repeated", "scenario_reset_cache"]
 EXHAUSTIVE = {"quick": False, "thorough": False}
 
@@ -162,7 +162,8 @@ def generate(spec):
         # a stochastic model behind bptk scenarios (with and without scenario settings): several runs, no edit in between
         runs = [rng.sample(["s", "r", "a"], rng.randint(1, 3)) for _ in range(rng.randint(2, 4))]
         return {"property": PROPERTY, "kind": "repeat", "scenario": rng.choice(["plain", "boost", "boost"]),
-                "dt": rng.choice([1.0, 0.5]), "steps": rng.choice([2, 3, 4]), "runs": runs,
+                # one in fifteen is a long run (more values than any "reasonable" bound on a memo): nothing is ever forgotten
+                "dt": rng.choice([1.0, 0.5]), "steps": rng.choice([2, 3, 4]) if rng.random() > 1 / 15 else rng.choice([530, 700]), "runs": runs,
                 "formats": [rng.choice(["df", "dict", "json"]) for _ in runs]}
     # edit history
     start = rng.choice([0.0, 1.0])
@@ -198,8 +199,12 @@ def generate(spec):
             ops.append({"op": "run_with_edit", "equations": rng.sample(ELEMS, rng.randint(1, 3)), "edit": ed,
                         "sched": {"kind": "random", "seed": rng.randrange(2**32), "p": rng.choice([0.02, 0.1, 0.3])}
                         if rng.random() < 0.7 else {"kind": "pct", "seed": rng.randrange(2**32), "depth": rng.choice([1, 2]), "est": rng.choice([100, 300, 800])}})
-        elif r < 0.95:
+        elif r < 0.93:
             ops.append({"op": "reset_cache"})
+        elif r < 0.96:
+            # what bptk does for a scenario whose constant was changed: scenario constant, scenario cache reset, and the
+            # runner writing the value into the model (SdSimulation.change_equation) before the next run
+            ops.append({"op": "scenario_constant", "elem": rng.choice(["k1", "k2"]), "value": rng.choice([0.0, 0.5, 1.0, 3.0, -2.0])})
         else:
             ops.append({"op": "scenario_reset_cache"})
     return {"property": PROPERTY, "kind": "edit", "start": start, "stop": stop, "dt": dt, "ops": ops,
@@ -297,6 +302,8 @@ def _execute_repeat(case):
         except Exception:
             pass
     res.probe("stochastic_scenario_run_repeatedly")
+    if steps > 512:
+        res.probe("long_stochastic_run")
     res.sim_units = len(case["runs"])
     res.nontrivial = len(case["runs"]) >= 2
     res.digest = log.digest()
@@ -523,6 +530,15 @@ def _execute_edit(case):
                 res.violate("C08.a-stale-after-edit", {"op_index": n_op, "op": op, "columns": bad, "via": "SdSimulation.start",
                                                        "last_edit": last_edit[0]})
             read_since_edit |= set(op["equations"])
+        elif kind == "scenario_constant":
+            if read_since_edit:
+                res.probe("edit_after_dependant_read")
+            res.probe("scenario_constant_then_scenario_reset")
+            defs[op["elem"]] = op["value"]
+            scen.constants[op["elem"]] = op["value"]
+            scen.reset_cache()
+            SdSimulation(model=live, name="edit").change_equation(name=op["elem"], value=op["value"])
+            last_edit[0] = op
         elif kind == "reset_cache":
             live.reset_cache()
         elif kind == "scenario_reset_cache":
